@@ -56,14 +56,27 @@ pub async fn publish_handler(w: Rc<World>, conn: usize, p: v5::Publish, route: &
     let _guard = GateGuard { w: w.clone(), id: gid };
     let mode = w.gates.borrow()[gid].payload_mode;
     match mode {
-        PayloadMode::Eager => match p.read_all().await {
+        PayloadMode::Eager => match {
+            w.ev(Ev::PayloadWait { gate: gid });
+            p.read_all().await
+        } {
             Ok(b) => w.ev(Ev::PayloadEnd { gate: gid, total: b.len(), digest: digest_bytes(&b), err: None }),
             Err(e) => w.ev(Ev::PayloadEnd { gate: gid, total: 0, digest: 0, err: Some(format!("{e:?}")) }),
         },
+        PayloadMode::LateAll => {
+            w.gate_wait_read(gid).await;
+            w.ev(Ev::PayloadWait { gate: gid });
+            match p.read_all().await {
+                Ok(b) => w.ev(Ev::PayloadEnd { gate: gid, total: b.len(), digest: digest_bytes(&b), err: None }),
+                Err(e) => w.ev(Ev::PayloadEnd { gate: gid, total: 0, digest: 0, err: Some(format!("{e:?}")) }),
+            }
+            w.gates.borrow_mut()[gid].read_done = true;
+        }
         PayloadMode::Lazy => {
             let mut all: Vec<u8> = Vec::new();
             loop {
                 w.gate_wait_read(gid).await;
+                w.ev(Ev::PayloadWait { gate: gid });
                 match p.read().await {
                     Ok(Some(b)) => {
                         w.ev(Ev::PayloadPiece { gate: gid, len: b.len(), digest: digest_bytes(&b) });
